@@ -156,11 +156,33 @@ def run_stream(tag, tier, seed, on_case=None, classes=None, sizes=None):
     n_class, n_raw = sizes or ((720, 160) if tier == "quick" else (7200, 1600))
     t0 = time.time()
     cases, metas, problems = [], [], []
+    # classes whose plan / formulas the translator refused are reported by the driver (translator item broken);
+    # their cases cannot be stated in Coq, the implementation-side checks still run on them
+    import os, re
+    from .common import COQ
+    gen = open(os.path.join(COQ, "Gen", "Classes.v")).read()
+    have = set(re.findall(r"Definition plan_(\w+) ", gen))
+    have_f = set(re.findall(r"Definition (f_\w+) ", gen))
+    skipped = {}
     for desc in case_list(seed, n_class, n_raw, classes):
+        untranslated = (desc["kind"] == "class" and desc["cls"] not in have)
+        if untranslated:
+            skipped[desc["cls"]] = skipped.get(desc["cls"], 0) + 1
+            if on_case:
+                try:
+                    inp, dump, meta, func = rebuild(desc)
+                    for pr in on_case(meta, func) or []:
+                        problems.append(dict(case=desc, **pr))
+                except Exception as e:
+                    problems.append(dict(kind="implementation-raised", case=desc, error=repr(e)[:500]))
+            continue
         try:
             inp, dump, meta, func = rebuild(desc)
         except Exception as e:      # recording samples / generating / reading the tables must not raise
             problems.append(dict(kind="implementation-raised", case=desc, error=repr(e)[:500]))
+            continue
+        if meta["kind"] == "raw" and "f_%s_%s" % (meta["cls"], meta["method"][4:]) not in have_f:
+            skipped["raw:" + meta["method"]] = skipped.get("raw:" + meta["method"], 0) + 1
             continue
         cases.append((inp, dump))
         metas.append(meta)
@@ -196,6 +218,7 @@ def run_stream(tag, tier, seed, on_case=None, classes=None, sizes=None):
                 samples=[dict(case=metas[i]) for i in (0, len(metas) - 1)],
                 distribution=dict(per_class=hist_cls, ops=hist_ops,
                                   n_constraints={str(k): v for k, v in sorted(hist_n.items())},
+                                  untranslated_skipped=skipped,
                                   seconds_impl=round(t1 - t0, 1), seconds_model=round(t2 - t1, 1)))
 
 
@@ -357,7 +380,9 @@ REF = {
     "CocoerciveStronglyMonotoneOperator": [
         ("cocoercivity", "points", "points", False, _cocoercive, 0, None),
         ("strong_monotonicity", "points", "points", False, _strong_monotone, 0, None)],
-    "LinearOperator": [],     # cross equalities and LMIs: see ref_cross / REF_LMI
+    # (x_i, y_i) a sample of the operator, (u_j, v_j) a sample of its transpose: <x_i, v_j> = <y_i, u_j>
+    "LinearOperator": [
+        ("adjoint", "points", "tpoints", False, lambda p, a, b: dot(a.x, b.g) - dot(a.g, b.x), 1, None)],
     "LipschitzOperator": [("lipschitz_continuity", "points", "points", False, _lipschitz, 0, None)],
     "LipschitzStronglyMonotoneOperator": [
         ("strong_monotonicity", "points", "points", False, _strong_monotone, 0, None),
@@ -483,14 +508,6 @@ def check_reference(name, func, rng, n_val=2):
                         out.append(dict(kind="required-pair-not-covered", condition=cname, i=i, j=j,
                                         diagonal=bool(same), same_x_g=bool(aa.tr[0] is b.tr[0] and aa.tr[1] is b.tr[1]),
                                         reference=str(r)))
-        # LinearOperator: X^T V = Y^T U for every (sample of the operator, sample of its transpose)
-        if name == "LinearOperator":
-            want = sorted(abs(dot(a.x, b.g) - dot(a.g, b.x)) for a in lists["points"] for b in lists["tpoints"])
-            got = sorted(abs(val.constraint(c)[0]) for c in func.list_of_class_constraints)
-            senses = set(c.equality_or_inequality for c in func.list_of_class_constraints)
-            if want != got or senses - {"equality"}:
-                out.append(dict(kind="cross-equalities-differ", condition="X^T V = Y^T U",
-                                generated=[str(v) for v in got], reference=[str(v) for v in want]))
         # LMIs
         lm = REF_LMI.get(name, [])
         if len(func.list_of_class_psd) != len(lm):
@@ -513,13 +530,10 @@ def check_reference(name, func, rng, n_val=2):
 
 
 def known_trigger(name, d):
-    """is this discrepancy one of the two documented triggers?  (F-C04b: diagonal of the skew-symmetric class;
-    F-C04c: BlockSmooth triplets holding the same Point objects x and g)"""
+    """is this discrepancy the documented open trigger?  (F-C04b: diagonal of the skew-symmetric class)"""
     if d.get("kind") == "required-pair-not-covered":
         if name == "SkewSymmetricLinearOperator" and d.get("diagonal"):
             return "F-C04b"
-        if name == "BlockSmoothConvexFunction" and d.get("same_x_g") and not d.get("diagonal"):
-            return "F-C04c"
     return None
 
 
@@ -551,7 +565,8 @@ def check_tables(name, func):
             continue
         if raw is None:
             nstat = len(func.list_of_stationary_points)
-            if cells.shape[1] != npts or cells.shape[0] not in (1, npts, nstat):
+            ntp = len(func.T.list_of_points) if hasattr(func, "T") else None
+            if cells.shape[1] not in (npts, ntp) or cells.shape[0] not in (1, npts, nstat):
                 out.append(dict(kind="table-shape", condition=key, shape=list(cells.shape), n_points=npts,
                                 n_stationary=nstat))
         if str(df.columns.name) != "IC_" + fid:
@@ -594,7 +609,75 @@ def check_tables(name, func):
 
 
 def known_trigger_c17(name, d):
-    """F-C17b: LinearOperator's cross equalities are unnamed and untabulated"""
-    if name == "LinearOperator" and d.get("kind") == "unnamed-class-constraint":
-        return "F-C17b"
+    """no open C17 finding has a trigger in this stream (F-C17b was repaired in /repo 763e32e)"""
     return None
+
+
+# ------------------------------------------------------------------------------------------ regression cases
+def regression_block_same_xg():
+    """repaired F-C04c (/repo b61687d): two samples of a BlockSmoothConvexFunction holding the same Point objects
+    x and g but different function values must get their conditions (both ordered pairs, every block), and no
+    throw-away Constraint may be created.  Returns a list of problem dicts (empty = passes)."""
+    from PEPit import PEP, Point, Expression
+    from PEPit.constraint import Constraint
+    from PEPit.functions import BlockSmoothConvexFunction
+    pep = PEP()
+    part = pep.declare_block_partition(d=2)
+    f = pep.declare_function(BlockSmoothConvexFunction, partition=part, L=[1., 2.])
+    x, g = Point(), Point()
+    f.add_point((x, g, Expression()))
+    f.add_point((x, g, Expression()))
+    part.get_block(g, 0)
+    c0 = Constraint.counter
+    f.set_class_constraints()
+    out = []
+    n = len(f.list_of_class_constraints)
+    if n != 4:
+        out.append(dict(kind="regression-F-C04c", what="two samples (x, g, f1), (x, g, f2): %d class constraints "
+                        "instead of 4 (2 ordered pairs x 2 blocks)" % n))
+    elif Constraint.counter - c0 != 4:
+        out.append(dict(kind="regression-F-C04c", what="%d Constraint objects created for 4 class constraints"
+                        % (Constraint.counter - c0)))
+    else:
+        for d in check_reference("BlockSmoothConvexFunction", f, random.Random(4)):
+            out.append(dict(kind="regression-F-C04c", what="reference check", detail=d))
+            break
+    return out
+
+
+def regression_linear_adjoint():
+    """repaired F-C17b (/repo 763e32e): LinearOperator's adjoint equalities are named IC_<fid>_adjoint(xi, uj),
+    tabulated under "adjoint" (|points| x |T.points|, zero columns when T has no sample) and reported by
+    get_class_constraints_duals()."""
+    from PEPit import PEP, Point
+    from PEPit.operators import LinearOperator
+    out = []
+    for nT in (0, 1, 2):
+        pep = PEP()
+        M = pep.declare_function(LinearOperator, L=1.)
+        for _ in range(2):
+            M.gradient(Point())
+        for _ in range(nT):
+            M.T.gradient(Point())
+        M.set_class_constraints()
+        names = [c.get_name() for c in M.list_of_class_constraints]
+        want = ["IC_Function_0_adjoint(Point_%d, Point_%d)" % (i, j) for i in range(2) for j in range(nT)]
+        df = M.tables_of_constraints.get("adjoint")
+        if names != want:
+            out.append(dict(kind="regression-F-C17b", what="names %r, expected %r" % (names, want)))
+        elif df is None or df.values.shape != (2, nT):
+            out.append(dict(kind="regression-F-C17b", what="table 'adjoint' %s for 2 x %d samples"
+                            % ("missing" if df is None else "of shape %r" % (df.values.shape,), nT)))
+        else:
+            for k, c in enumerate(M.list_of_class_constraints):
+                c._dual_variable_value = float(k)
+            for d in check_tables("LinearOperator", M):
+                out.append(dict(kind="regression-F-C17b", what="table check", detail=d))
+                break
+            dv = M.get_class_constraints_duals()["adjoint"].values
+            got = [[float(v) for v in row] for row in dv]
+            if not out and got != [[float(i * nT + j) for j in range(nT)] for i in range(2)]:
+                out.append(dict(kind="regression-F-C17b", what="duals table %r" % (got,)))
+        if out:
+            break
+    return out
